@@ -675,4 +675,207 @@ theorem exec_rel : ∀ fuel, PStmt Γ fuel ∧ PBlock Γ fuel ∧ PElifs Γ fuel
       while_step Γ hB hW, repeat_step Γ hB hR⟩
 
 end
+theorem StoreWT.frames_irrel {Γ : Ctx} {σ : Store} (h : StoreWT Γ σ) (fr : List String) :
+    StoreWT Γ { σ with frames := fr } := h
+
+/-- One scan cycle inside the guard, from any well-typed store. -/
+theorem cycle_rel (p : Program) (hS : Strict p = true) (σ : Store) (hσ : StoreWT p.ctx σ) (fuel : Nat) :
+    StoreWT p.ctx (cycle .real p fuel { store := σ }).1.store ∧
+    (cycle .real p fuel { store := σ }).1.store.frames = σ.frames ∧
+    (Spec.cycle p fuel (eraseEnv σ.vars)).1 = eraseEnv (cycle .real p fuel { store := σ }).1.store.vars ∧
+    (match (cycle .real p fuel { store := σ }).2, (Spec.cycle p fuel (eraseEnv σ.vars)).2 with
+      | none, none => (cycle .real p fuel { store := σ }).1.faulted = false
+      | some st, some g => st.toS = some g ∧ (cycle .real p fuel { store := σ }).1.faulted = true
+      | _, _ => False) := by
+  simp only [Strict, Spec.typed, Bool.and_eq_true] at hS
+  obtain ⟨⟨⟨_, _⟩, htb⟩, hsb⟩ := hS.1
+  have hrel := (exec_rel p.ctx fuel).2.1 0 { σ with frames := p.name :: σ.frames } p.body [] false
+    (hσ.frames_irrel _) htb hsb (by simp)
+  simp only [cycle, Spec.cycle, Bool.false_eq_true, if_false]
+  rcases hA : execBlock .real fuel 0 { σ with frames := p.name :: σ.frames } p.body with ⟨σ1, r1⟩
+  rcases hB : Spec.execBlock p.ctx fuel (eraseEnv σ.vars) p.body with ⟨σ2, r2⟩
+  rw [hA] at hrel
+  simp only at hrel
+  rw [hB] at hrel
+  obtain ⟨w1, w2, w3, w4⟩ := hrel.elim
+  simp only at w1 w2 w3 w4
+  subst w2
+  rcases w4 with ⟨f, rfl, rfl, hf⟩ | ⟨st, g, rfl, rfl, hg⟩
+  · have : f = .cont := hf.2 rfl
+    subst this
+    exact ⟨w1.frames_irrel _, by simp [w3], rfl, rfl⟩
+  · exact ⟨w1.frames_irrel _, by simp [w3], rfl, hg, rfl⟩
+
+/-- Every input write puts a value of the declared type into a declared variable. -/
+def InputsWT (Γ : Ctx) (ins : Inputs) : Prop :=
+  ∀ k x v, (x, v) ∈ ins k → ∃ t, Γ.lookup x = some t ∧ v.hasTy t = true
+
+theorem StoreWT.insert {Γ : Ctx} {σ : Store} (hσ : StoreWT Γ σ) {x : String} {t : Ty} {v : Val}
+    (hx : Γ.lookup x = some t) (hv : v.hasTy t = true) :
+    StoreWT Γ { σ with vars := insert x v σ.vars } := by
+  obtain ⟨v0, hv0, _⟩ := hσ x t hx
+  intro y ty hy
+  by_cases hyx : y = x
+  · subst hyx
+    rw [hx] at hy
+    injection hy with hy
+    subst hy
+    exact ⟨v, lookup_insert_same y v σ.vars (by simp [hv0]), hv⟩
+  · obtain ⟨w, hw1, hw2⟩ := hσ y ty hy
+    exact ⟨w, by simp [lookup_insert_other x y v σ.vars hyx, hw1], hw2⟩
+
+theorem withInputs_WT {Γ : Ctx} (ws : List (String × Val))
+    (hws : ∀ x v, (x, v) ∈ ws → ∃ t, Γ.lookup x = some t ∧ v.hasTy t = true) :
+    ∀ (st : RunState), StoreWT Γ st.store → StoreWT Γ (st.withInputs ws).store := by
+  induction ws with
+  | nil => intro st h; exact h
+  | cons w rest ih =>
+    intro st h
+    obtain ⟨x, v⟩ := w
+    obtain ⟨t, hx, hv⟩ := hws x v (by simp)
+    have h1 := h.insert hx hv
+    have := ih (fun x v hm => hws x v (by simp [hm]))
+      { st with store := { st.store with vars := insert x v st.store.vars } } h1
+    exact this
+
+theorem applyInputs_erase (ws : List (String × Val)) :
+    ∀ (e : Env), Spec.applyInputs (eraseEnv e) ws = eraseEnv (applyInputs e ws) := by
+  induction ws with
+  | nil => intro e; rfl
+  | cons w rest ih =>
+    intro e
+    obtain ⟨x, v⟩ := w
+    simp only [Spec.applyInputs, applyInputs, List.foldl_cons]
+    rw [sinsert_erase]
+    exact ih (insert x v e)
+
+theorem withInputs_frames (st : RunState) (ws : List (String × Val)) :
+    (st.withInputs ws).store.frames = st.store.frames := rfl
+
+theorem withInputs_faulted (st : RunState) (ws : List (String × Val)) :
+    (st.withInputs ws).faulted = st.faulted := rfl
+
+/-- A cycle of a latched resource changes nothing and reports `ResourceFaulted`. -/
+theorem cycle_latched (cfg : Cfg) (p : Program) (fuel : Nat) (st : RunState) (h : st.faulted = true) :
+    cycle cfg p fuel st = (st, some (.fault .ResourceFaulted .latched)) := by
+  simp [cycle, h]
+
+/-- `cycle_rel` for a run state that is not latched. -/
+theorem cycle_rel' (p : Program) (hS : Strict p = true) (st : RunState) (hσ : StoreWT p.ctx st.store)
+    (hf : st.faulted = false) (fuel : Nat) :
+    StoreWT p.ctx (cycle .real p fuel st).1.store ∧
+    (cycle .real p fuel st).1.store.frames = st.store.frames ∧
+    (Spec.cycle p fuel (eraseEnv st.store.vars)).1 = eraseEnv (cycle .real p fuel st).1.store.vars ∧
+    (match (cycle .real p fuel st).2, (Spec.cycle p fuel (eraseEnv st.store.vars)).2 with
+      | none, none => (cycle .real p fuel st).1.faulted = false
+      | some s, some g => s.toS = some g ∧ (cycle .real p fuel st).1.faulted = true
+      | _, _ => False) := by
+  have : st = { store := st.store } := by
+    cases st; simp at hf; simp [hf]
+  rw [this]
+  exact cycle_rel p hS st.store hσ fuel
+
+
+/-- The implementation's report of a cycle corresponds to the reference's. -/
+def ReportRel (A : CycleOut) (B : Option SFault) : Prop :=
+  match A, B with
+  | none, none => True
+  | some s, some g => s.toS = some g
+  | _, _ => False
+
+theorem report_weaken {A : CycleOut} {B : Option SFault} {P Q : Prop}
+    (h : match A, B with
+      | none, none => P
+      | some s, some g => s.toS = some g ∧ Q
+      | _, _ => False) : ReportRel A B := by
+  unfold ReportRel
+  cases A <;> cases B <;> simp_all
+
+section
+variable (p : Program) (hS : Strict p = true) (ins : Inputs) (hins : InputsWT p.ctx ins)
+  (σ0 : Store) (hσ0 : StoreWT p.ctx σ0) (fuel : Nat)
+include hS hins hσ0
+
+/-- Invariant at every cycle boundary of every run inside the guard. -/
+theorem run_inv : ∀ n,
+    StoreWT p.ctx (runFrom .real p fuel ins n { store := σ0 }).store ∧
+    (runFrom .real p fuel ins n { store := σ0 }).store.frames = σ0.frames ∧
+    ((runFrom .real p fuel ins n { store := σ0 }).faulted = false →
+      Spec.runFrom p fuel ins n (eraseEnv σ0.vars) =
+        eraseEnv (runFrom .real p fuel ins n { store := σ0 }).store.vars) := by
+  intro n
+  induction n with
+  | zero => exact ⟨hσ0, rfl, fun _ => rfl⟩
+  | succ n ih =>
+    obtain ⟨i1, i2, i3⟩ := ih
+    simp only [runFrom, Spec.runFrom]
+    have hwt := withInputs_WT (Γ := p.ctx) (ins n) (hins n) _ i1
+    cases hf : (runFrom .real p fuel ins n { store := σ0 }).faulted with
+    | true =>
+      rw [cycle_latched .real p fuel _ (by rw [withInputs_faulted]; exact hf)]
+      refine ⟨hwt, by rw [withInputs_frames]; exact i2, ?_⟩
+      intro h
+      rw [withInputs_faulted, hf] at h
+      exact absurd h (by simp)
+    | false =>
+      obtain ⟨c1, c2, c3, c4⟩ := cycle_rel' p hS _ hwt (by rw [withInputs_faulted]; exact hf) fuel
+      refine ⟨c1, by rw [c2, withInputs_frames]; exact i2, ?_⟩
+      intro _
+      rw [i3 hf, applyInputs_erase]
+      exact c3
+
+/-- What every cycle of every run inside the guard reports. -/
+theorem run_report (n : Nat) :
+    ((runFrom .real p fuel ins n { store := σ0 }).faulted = true →
+      reportAt .real p fuel ins n { store := σ0 } = some (.fault .ResourceFaulted .latched)) ∧
+    ((runFrom .real p fuel ins n { store := σ0 }).faulted = false →
+      ReportRel (reportAt .real p fuel ins n { store := σ0 }) (Spec.reportAt p fuel ins n (eraseEnv σ0.vars))) := by
+  obtain ⟨i1, i2, i3⟩ := run_inv p hS ins hins σ0 hσ0 fuel n
+  have hwt := withInputs_WT (Γ := p.ctx) (ins n) (hins n) _ i1
+  constructor
+  · intro hf
+    simp only [reportAt]
+    rw [cycle_latched .real p fuel _ (by rw [withInputs_faulted]; exact hf)]
+  · intro hf
+    obtain ⟨c1, c2, c3, c4⟩ := cycle_rel' p hS _ hwt (by rw [withInputs_faulted]; exact hf) fuel
+    simp only [reportAt, Spec.reportAt]
+    rw [i3 hf, applyInputs_erase]
+    exact report_weaken c4
+
+end
+
+theorem initVal_hasTy (d : VarDecl) (h : Spec.declTyped d = true) : d.initVal.hasTy d.ty = true := by
+  unfold Spec.declTyped at h
+  unfold VarDecl.initVal
+  cases hty : d.ty with
+  | bool => simp [Val.hasTy]
+  | int k => simp [hty] at h; simp [Val.hasTy, h]
+
+theorem init_WT_aux : ∀ (ds : List VarDecl), ds.all Spec.declTyped = true → ∀ x t,
+    (ds.map fun d => (d.name, d.ty)).lookup x = some t →
+    ∃ v, lookup x (ds.map fun d => (d.name, d.initVal)) = some v ∧ v.hasTy t = true := by
+  intro ds
+  induction ds with
+  | nil => intro _ x t h; simp [List.lookup] at h
+  | cons d rest ih =>
+    intro hall x t h
+    simp only [List.all_cons, Bool.and_eq_true] at hall
+    simp only [List.map_cons, List.lookup] at h
+    simp only [List.map_cons, lookup]
+    by_cases hx : x = d.name
+    · subst hx
+      simp at h
+      subst h
+      exact ⟨d.initVal, by simp, initVal_hasTy d hall.1⟩
+    · have : (x == d.name) = false := by simp [hx]
+      simp only [this] at h
+      simp only [hx, if_false]
+      exact ih hall.2 x t h
+
+/-- The initial store of a program of the typed core is well typed
+(`coerce_value_to_type` on the initialisers). -/
+theorem init_WT (p : Program) (h : Spec.typed p = true) : StoreWT p.ctx p.initStore := by
+  simp only [Spec.typed, Bool.and_eq_true] at h
+  exact init_WT_aux p.decls h.1.2
+
 end TrustVerif.StCore
